@@ -48,9 +48,9 @@ def gen_mag_problem(rng, axi=None, size_nodes=70, bh=None, outer=False):
     p = B.p
     axi = rng.random() < 0.4 if axi is None else axi
     p["problemtype"] = "axisymmetric" if axi else "planar"
-    # (axisymmetric magnetostatics declared in microns yields NaN potentials from fsolver on BOTH routes: not this property's
-    #  subject, reported separately; such problems would compare NaN with NaN)
-    p["units"] = rng.choice([u for u in femgen.UNITS if not (axi and u == "microns")])
+    # (axisymmetric magnetostatics declared in microns used to yield NaN potentials from fsolver on both routes: repaired in
+    #  /repo 0288a4c, found through this generator; C10 checks it)
+    p["units"] = rng.choice(femgen.UNITS)
     p["depth"] = rng.choice([1.0, 2.5, 10.0, 40.0])
     p["precision"] = 1e-8
     p["minangle"] = rng.choice([20, 25, 30])
